@@ -219,7 +219,7 @@ def compute_attractor_candidates(
             avoid_subspaces=child_motifs_reduced,
             solution_limit=sd.config["attractor_candidates_limit"],
         )
-        if len(candidate_states) == sd.config["attractor_candidates_limit"]:
+        if len(candidate_states) >= sd.config["attractor_candidates_limit"]:
             raise RuntimeError(
                 f"Exceeded the maximum amount of attractor candidates ({sd.config['attractor_candidates_limit']}; see `SuccessionDiagramConfiguation.attractor_candidates_limit`)."
             )
@@ -287,14 +287,20 @@ def compute_attractor_candidates(
                     pn_reduced,
                     retained_set,
                     avoid_subspaces=child_motifs_reduced,
-                    solution_limit=len(candidate_states_zero),
+                    # One extra solution is enough to see that `var=1` is worse than
+                    # `var=0`. Asking for exactly `len(candidate_states_zero)` solutions
+                    # would make a truncated list indistinguishable from a complete one.
+                    solution_limit=min(
+                        len(candidate_states_zero) + 1,
+                        sd.config["attractor_candidates_limit"],
+                    ),
                 )
 
                 if (
                     len(candidate_states_zero)
-                    == sd.config["attractor_candidates_limit"]
+                    >= sd.config["attractor_candidates_limit"]
                     and len(candidate_states_one)
-                    == sd.config["attractor_candidates_limit"]
+                    >= sd.config["attractor_candidates_limit"]
                 ):
                     raise RuntimeError(
                         f"Exceeded the maximum amount of attractor candidates ({sd.config['attractor_candidates_limit']}; see `SuccessionDiagramConfiguation.attractor_candidates_limit`)."
@@ -341,6 +347,22 @@ def compute_attractor_candidates(
                     )
                     retained_set = optimized[0]
                     candidate_states = optimized[1]
+
+            if len(node_nfvs) == 0:
+                # There is nothing to retain, so the loop above did not compute
+                # anything: the candidates are the fixed points of the node itself.
+                candidate_states = compute_fixed_point_reduced_STG(
+                    pn_reduced,
+                    retained_set,
+                    avoid_subspaces=child_motifs_reduced,
+                    solution_limit=sd.config["attractor_candidates_limit"],
+                )
+
+            if len(candidate_states) >= sd.config["attractor_candidates_limit"]:
+                # The list may have been truncated by the solution limit.
+                raise RuntimeError(
+                    f"Exceeded the maximum amount of attractor candidates ({sd.config['attractor_candidates_limit']}; see `SuccessionDiagramConfiguation.attractor_candidates_limit`)."
+                )
 
     # Terminate if done.
     if len(candidate_states) == 0:
